@@ -150,7 +150,11 @@ let probe_model (a : args) : (sb_expr * sb_st) option =
       else match str a "cb" "none" with
         | "lambda" -> [ SbFunction ([ nm "x" ], [], var "x") ]
         | "native" -> [ var "sbcb" ]
-        | _ -> List.init (num a "nargs" 0) (fun _ -> lnum) in
+        | _ ->
+          (* [shpos]: the argument positions that hold a live shared container (the global array SbArr, shared cell 1):
+             what a native that is not established pure can reach - and, in the model, write - through its arguments *)
+          let sh = String.split_on_char ',' (str a "shpos" "-") in
+          List.init (num a "nargs" 0) (fun q -> if List.mem (string_of_int q) sh then var "SbArr" else lnum) in
     Some (SbFunctionCall (callee, args), fixture extra rty [ (N0, SbVOpaque) ])
   | "ctor" ->
     let t = nm (hexs a "ty") in
